@@ -184,12 +184,16 @@ CHECKS["C11"] = dict(
 )
 CHECKS["C19"] = dict(
     category="model_checking",
-    text="Closed form P = start probability x product over blocks of F(M_n) - F(M_{n-1}) (reference CDF at the cumulative unit masses). get_ensemble_prob is queried for every chain "
+    text="(1) Machine-derived: spec/GenerateProb.tla is the generation machine (GenerateMC) with the history of law fractions taken; TLC enumerates every behaviour for one "
+         "representative target per interval of cumulative block masses and exports every terminal molecule atom by atom; the probability of a molecule is the sum over "
+         "behaviours of product(choices) x product(interval probabilities of the declared law); get_ensemble_prob must report that number for EVERY molecule in the machine's "
+         "support (10 instances: prefix / end-group starts with weights, closing end groups, two blocks, connector, four families, locally symmetric groups). "
+         "(2) Closed form P = start probability x product over blocks of F(M_n) - F(M_{n-1}) (reference CDF at the cumulative unit masses). get_ensemble_prob is queried for every chain "
          "length with non-negligible mass for one to three blocks, prefix / [H] start / two competing start groups, all six families (two parameter sets per family on the same unit), "
          "random atom orders of the query, and molecules outside the ensemble; single-block relations (record kinds 'chain', 'total', 'zero') are evaluated by TLC, products of several "
-         "blocks in Python. Three defects of the unchanged code are known findings with designated probe cases.",
+         "blocks in Python. Five defects of the unchanged code are known findings, recognised by designated probe cases or by their verified cause.",
     design_ref="DESIGN.md 4/C19", note=_LAW_NOTE,
-    technique="TLA+ law relations (Law.tla) checked by TLC on recorded ensemble probabilities; closed form from an independent CDF oracle",
+    technique="distribution over molecules derived by TLC from the generation-machine spec (GenerateProb.tla) compared with the reported probabilities; TLA+ law relations (Law.tla) checked by TLC on recorded ensemble probabilities",
 )
 
 PENDING_REASON = "check not built yet in this round (design in DESIGN.md); no claim is made"
